@@ -1,248 +1,5 @@
 /-
-  Props/Src/Basic.lean — the functions TRANSLATED from anonymizer.go / helpers.go by tools/gotr (Generated/Src.lean)
-  compute exactly what the hand-written model says, never panic, and terminate.  Part 1: the helpers.
-
-  Each theorem reads `Src.f g T args = some (model function on the abstracted arguments)`: `some` = the Go function returns
-  (no index out of range, no nil dereference, no failed assertion) and the value is the model's.
+  Props/Src/Basic.lean — umbrella (kept for the module names used elsewhere): the leaf helpers and the path helpers.
 -/
-import Anonymongo.Generated.Src
-import Anonymongo.Model.Walk
-import Anonymongo.Lemmas.Basic
-namespace Anonymongo.Src
-open Anonymongo Anonymongo.Go
-
-/-- the model configuration that a state of the Go option variables stands for.  Encrypt mode is on when `shouldEncrypt` is
-    set AND a key is installed; the ciphertext of a string is `base64 (Encrypt (utf8 s) key)`, an `Encrypt` error is `none`. -/
-def absCfg (g : Globals) : Cfg where
-  repl := g.redactedString
-  nums := g.redactNumbers
-  bools := g.redactBooleans
-  ips := g.redactIPs
-  ns := g.redactNamespaces
-  re := g.redactedFieldsRegexp
-  enc := if g.shouldEncrypt && g.encryptionKey.isSome then
-      some (fun s => (g.Encrypt (utf8 s) g.encryptionKey).map g.b64) else none
-
-/-! one iteration of a `for` loop over a list, with the rest of the loop left untouched -/
-theorem forIn_cons_yield {α β : Type} (x : α) (xs : List α) (init b' : β) (f : α → β → Option (ForInStep β))
-    (h : f x init = some (.yield b')) : forIn (x :: xs) init f = forIn xs b' f := by
-  simp [List.forIn_cons, h]
-
-theorem forIn_cons_done {α β : Type} (x : α) (xs : List α) (init b' : β) (f : α → β → Option (ForInStep β))
-    (h : f x init = some (.done b')) : forIn (x :: xs) init f = some b' := by
-  simp [List.forIn_cons, h]
-
-theorem forIn_cons_none {α β : Type} (x : α) (xs : List α) (init : β) (f : α → β → Option (ForInStep β))
-    (h : f x init = none) : forIn (x :: xs) init f = none := by
-  simp [List.forIn_cons, h]
-
-/-- `reMatchesAnyKeyInPath` is `reMatchesAny` -/
-theorem reMatchesAnyKeyInPath_eq (g : Globals) (T : Tables) (kp : List Str) (re : Option (Str → Bool)) :
-    reMatchesAnyKeyInPath g T kp re = some (reMatchesAny re kp) := by
-  unfold reMatchesAnyKeyInPath reMatchesAny
-  cases re with
-  | none => simp
-  | some m =>
-    simp [reMatch]
-    induction kp with
-    | nil => simp
-    | cons k ks ih => cases h : m k <;> simp [h, ih]
-
-/-- `redactString` is the model's, under the abstraction of the option variables -/
-theorem redactString_eq (g : Globals) (T : Tables) (s ph : Str) :
-    redactString g T s ph = some (Anonymongo.redactString (absCfg g) s ph) := by
-  unfold redactString Anonymongo.redactString absCfg
-  cases h1 : g.shouldEncrypt <;> cases h2 : g.encryptionKey <;> simp [errPair]
-  cases h3 : g.Encrypt (utf8 s) (some _) <;> simp
-
-/-- `IsEmail` is the length guard and the recogniser -/
-theorem IsEmail_eq (g : Globals) (T : Tables) (s : Str) : IsEmail g T s = some (isEmail s) := by
-  unfold IsEmail isEmail
-  simp only [strLen, reMatch]
-  -- (robust against the spelling of the length guard: `<` / `>` or negated `>=` / `<=`)
-  have p1 : ((utf8Len s : Int) < 3) ↔ ¬ (3 ≤ utf8Len s) := by omega
-  have p2 : ((utf8Len s : Int) > 254) ↔ ¬ (utf8Len s ≤ 254) := by omega
-  have p3 : ((utf8Len s : Int) ≥ 3) ↔ (3 ≤ utf8Len s) := by omega
-  have p4 : ((utf8Len s : Int) ≤ 254) ↔ (utf8Len s ≤ 254) := by omega
-  by_cases a : 3 ≤ utf8Len s <;> by_cases b : utf8Len s ≤ 254 <;> simp [p1, p2, p3, p4, a, b]
-
-theorem idx_append_length {α : Type} (pre : List α) (x : α) (rest : List α) :
-    idx (pre ++ x :: rest) (pre.length : Int) = some x := by
-  simp [idx]
-
-theorem idx_append_length_succ {α : Type} (pre : List α) (x y : α) (rest : List α) :
-    idx (pre ++ x :: y :: rest) ((pre.length : Int) + 1) = some y := by
-  have : ((pre.length : Int) + 1).toNat = pre.length + 1 := by omega
-  simp [idx, this]
-  omega
-
-theorem sliceFrom_app {α : Type} (pre rest : List α) : sliceFrom (pre ++ rest) (pre.length : Int) = some rest := by
-  simp [sliceFrom]; omega
-
-theorem sliceFrom_app1 {α : Type} (pre : List α) (x : α) (rest : List α) :
-    sliceFrom (pre ++ x :: rest) ((pre.length : Int) + 1) = some rest := by
-  have := sliceFrom_app (pre ++ [x]) rest
-  simpa using this
-
-theorem sliceFrom_app2 {α : Type} (pre : List α) (x y : α) (rest : List α) :
-    sliceFrom (pre ++ x :: y :: rest) ((pre.length : Int) + 2) = some rest := by
-  have := sliceFrom_app (pre ++ [x, y]) rest
-  simp only [List.length_append, List.length_cons, List.length_nil, List.append_assoc, List.cons_append, List.nil_append] at this
-  rw [← this]; congr 1
-
-theorem sliceTo_app1 {α : Type} (pre : List α) (x : α) (rest : List α) :
-    sliceTo (pre ++ x :: rest) ((pre.length : Int) + 1) = some (pre ++ [x]) := by
-  have h : ((pre.length : Int) + 1).toNat = (pre ++ [x]).length := by simp
-  unfold sliceTo
-  rw [h]
-  have : (pre ++ x :: rest) = (pre ++ [x]) ++ rest := by simp
-  rw [this, List.take_left']
-  · simp; omega
-  · rfl
-
-theorem wsud_nil : Anonymongo.withinSearchUserDocument [] = false := by rfl
-theorem wsud_one (a : Str) : Anonymongo.withinSearchUserDocument [a] = false := by rfl
-theorem wsud_two (a b : Str) : Anonymongo.withinSearchUserDocument [a, b] = false := by rfl
-theorem wsud_three (a b c : Str) (r : List Str) : Anonymongo.withinSearchUserDocument (a :: b :: c :: r) =
-   ((a = sMoreLikeThis && b = sLike) || Anonymongo.withinSearchUserDocument (b :: c :: r)) := by rw [Anonymongo.withinSearchUserDocument]
-
-/-- `withinSearchUserDocument` -/
-theorem withinSearchUserDocument_eq (g : Globals) (T : Tables) (kp : List Str) :
-    withinSearchUserDocument g T kp = some (Anonymongo.withinSearchUserDocument kp) := by
-  have key : ∃ (β : Type) (init : β) (F : Nat → β → Option (ForInStep β)) (K : β → Option Bool),
-      withinSearchUserDocument g T kp = (forIn (List.range' 0 ((len kp).toNat - 0)) init F) >>= K ∧
-      ∀ (pre rest : List Str), pre ++ rest = kp →
-        (forIn (List.range' pre.length rest.length) init F) >>= K = some (Anonymongo.withinSearchUserDocument rest) := by
-    refine ⟨_, _, _, _, rfl, ?_⟩
-    intro pre rest
-    induction rest generalizing pre with
-    | nil => intro h; rfl
-    | cons a r ih =>
-      intro h
-      have ih' := ih (pre ++ [a]) (by simpa using h)
-      have hpl : (pre ++ [a]).length = pre.length + 1 := by simp
-      rw [hpl] at ih'
-      rw [List.length_cons, List.range'_succ, List.forIn_cons]
-      match r with
-      | [] =>
-        have hk : len kp = pre.length + 1 := by simp [← h, len]
-        have : ¬ ((pre.length:Int) + 2 < pre.length + 1) := by omega
-        simp only [List.length_nil, List.range'_zero, List.forIn_nil, hk, this, decide_false, Bool.not_false, if_true]
-        rfl
-      | [b] =>
-        have hk : len kp = pre.length + 2 := by simp [← h, len]
-        have : ¬ ((pre.length:Int) + 2 < pre.length + 2) := by omega
-        simp only [List.length_cons, List.length_nil, List.range'_succ, List.range'_zero, List.forIn_cons, List.forIn_nil, hk, this, decide_false, Bool.not_false, if_true]
-        rfl
-      | b :: c :: r' =>
-        have hk : len kp = pre.length + (r'.length + 3) := by simp [← h, len]; omega
-        have c1 : ((pre.length : Int) + 2 < len kp) := by rw [hk]; omega
-        have e0 : idx kp (pre.length : Int) = some a := by rw [← h]; exact idx_append_length _ _ _
-        have e1 : idx kp ((pre.length : Int) + 1) = some b := by rw [← h]; exact idx_append_length_succ _ _ _ _
-        simp only [c1, decide_true, Bool.not_true, Bool.false_eq_true, if_false, e0, e1]
-        rw [wsud_three]
-        by_cases ha : a = sMoreLikeThis
-        · by_cases hb : b = sLike
-          · have h1 : (a == s_moreLikeThis) = true := by rw [ha]; rfl
-            have h2 : (b == s_like) = true := by rw [hb]; rfl
-            simp only [bind, Option.bind, pure, h1, h2, goAnd]
-            simp [ha, hb]
-          · have h1 : (a == s_moreLikeThis) = true := by rw [ha]; rfl
-            have h2 : (b == s_like) = false := by
-              have : ¬ (b = s_like) := hb
-              simpa using this
-            simp only [bind, Option.bind, pure, h1, h2, goAnd]
-            simp only [hb, decide_false, Bool.and_false, Bool.false_or, Bool.false_eq_true, if_false]
-            exact ih'
-        · have h1 : (a == s_moreLikeThis) = false := by
-            have : ¬ (a = s_moreLikeThis) := ha
-            simpa using this
-          simp only [bind, Option.bind, pure, h1, goAnd]
-          simp only [ha, decide_false, Bool.false_and, Bool.false_or, Bool.false_eq_true, if_false]
-          exact ih'
-  obtain ⟨β, init, F, K, e, h⟩ := key
-  rw [e]
-  have := h [] kp rfl
-  simpa [len] using this
-
-/-- `RemoveElementsBeforeIncluding` -/
-theorem RemoveElementsBeforeIncluding_eq (g : Globals) (T : Tables) (slice : List Str) (marker : Str) :
-    RemoveElementsBeforeIncluding g T slice marker = some (removeElementsBeforeIncluding marker slice) := by
-  have key : ∃ (β : Type) (init : β) (F : Str × Nat → β → Option (ForInStep β)) (K : β → Option (List Str)),
-      RemoveElementsBeforeIncluding g T slice marker = (forIn slice.zipIdx init F) >>= K ∧
-      ∀ pre rest, pre ++ rest = slice →
-        (forIn (rest.zipIdx pre.length) init F) >>= K = some (removeElementsBeforeIncluding marker rest) := by
-    refine ⟨_, _, _, _, rfl, ?_⟩
-    intro pre rest
-    induction rest generalizing pre with
-    | nil => intro _; rfl
-    | cons x xs ih =>
-      intro h
-      cases xs with
-      | nil =>
-        have hk : len slice = pre.length + 1 := by simp [← h, len]
-        have : ¬ ((pre.length : Int) + 1 < pre.length + 1) := by omega
-        simp only [List.zipIdx_cons, List.zipIdx_nil, List.forIn_cons, List.forIn_nil, hk, this, decide_false, Bool.and_false,
-          Bool.false_eq_true, if_false]
-        rfl
-      | cons y ys =>
-        have ih' := ih (pre ++ [x]) (by simpa using h)
-        simp only [List.zipIdx_cons, List.forIn_cons]
-        have hlt : ((pre.length : Int) + 1 < len slice) := by rw [← h]; simp [len]; omega
-        by_cases hx : x = marker
-        · subst hx
-          have e : sliceFrom slice ((pre.length : Int) + 1) = some (y :: ys) := by rw [← h]; exact sliceFrom_app1 _ _ _
-          simp only [beq_self_eq_true, hlt, decide_true, Bool.and_self, if_true, e]
-          simp [removeElementsBeforeIncluding]
-        · have hb : (x == marker) = false := by simpa using hx
-          simp only [hb, Bool.false_and, Bool.false_eq_true, if_false]
-          have : removeElementsBeforeIncluding marker (x :: y :: ys) = removeElementsBeforeIncluding marker (y :: ys) := by
-            simp [removeElementsBeforeIncluding, hx]
-          rw [this]
-          simpa [List.zipIdx_cons] using ih'
-  obtain ⟨β, init, F, K, e, h⟩ := key
-  rw [e]; exact h [] slice rfl
-
-/-- `RemoveElementAfter` -/
-theorem RemoveElementAfter_eq (g : Globals) (T : Tables) (slice : List Str) (marker : Str) :
-    RemoveElementAfter g T slice marker = some (removeElementAfter marker slice) := by
-  have key : ∃ (β : Type) (init : β) (F : Str × Nat → β → Option (ForInStep β)) (K : β → Option (List Str)),
-      RemoveElementAfter g T slice marker = (forIn slice.zipIdx init F) >>= K ∧
-      ∀ pre rest, pre ++ rest = slice →
-        ∃ r, (forIn (rest.zipIdx pre.length) init F) >>= K = some r ∧ r = pre ++ removeElementAfter marker rest := by
-    refine ⟨_, _, _, _, rfl, ?_⟩
-    intro pre rest
-    induction rest generalizing pre with
-    | nil => intro h; exact ⟨slice, rfl, by simp [← h, removeElementAfter]⟩
-    | cons x xs ih =>
-      intro h
-      cases xs with
-      | nil =>
-        have hk : len slice = pre.length + 1 := by simp [← h, len]
-        have : ¬ ((pre.length : Int) + 1 < pre.length + 1) := by omega
-        simp only [List.zipIdx_cons, List.zipIdx_nil, List.forIn_cons, List.forIn_nil, hk, this, decide_false, Bool.and_false,
-          Bool.false_eq_true, if_false]
-        exact ⟨slice, rfl, by simp [← h, removeElementAfter]⟩
-      | cons y ys =>
-        obtain ⟨r, hr, hr2⟩ := ih (pre ++ [x]) (by simpa using h)
-        simp only [List.zipIdx_cons, List.forIn_cons]
-        have hlt : ((pre.length : Int) + 1 < len slice) := by rw [← h]; simp [len]; omega
-        by_cases hx : x = marker
-        · subst hx
-          have e1 : sliceTo slice ((pre.length : Int) + 1) = some (pre ++ [x]) := by rw [← h]; exact sliceTo_app1 _ _ _
-          have e2' : sliceFrom slice ((pre.length : Int) + 2) = some ys := by
-            rw [← h]; exact sliceFrom_app2 pre x y ys
-          simp only [beq_self_eq_true, hlt, decide_true, Bool.and_self, if_true, e1, e2']
-          refine ⟨pre ++ x :: ys, ?_, by simp [removeElementAfter]⟩
-          simp [bind, Option.bind, pure]
-        · have hb : (x == marker) = false := by simpa using hx
-          simp only [hb, Bool.false_and, Bool.false_eq_true, if_false]
-          refine ⟨r, ?_, ?_⟩
-          · simpa [List.zipIdx_cons] using hr
-          · rw [hr2]; simp [removeElementAfter, hx]
-  obtain ⟨β, init, F, K, e, h⟩ := key
-  rw [e]
-  obtain ⟨r, hr, hr2⟩ := h [] slice rfl
-  rw [hr2] at hr; exact hr
-
-end Anonymongo.Src
+import Anonymongo.Props.Src.Leaf
+import Anonymongo.Props.Src.PathFns
